@@ -70,7 +70,20 @@ for _k, _f in NEAR.items():
 assert len(set(TEXTS.values())) == len(TEXTS)
 FAMILY = ["OK3"] + ["OK3~" + k for k in NEAR]
 SCRIBBLE = "\x00vf-edited-by-caller"
-HANDED_CAP = {"quick": 2, "thorough": 3}
+
+
+def plans(tier):
+    """The searches of a tier.  quick: one search over everything.  thorough: a *wide* search (everything, one more
+    deviation than quick, so that a colliding pair of near-duplicates fits together with a fault, and a fourth result
+    of one text is distinguished) and a *deep* search (the three unrelated texts only, histories of length 6).
+    flags = which parse-flag sets; family = near-duplicate texts in the alphabet; cap = results handed out per text
+    that the abstract state distinguishes (0..cap)."""
+    if tier == "quick":
+        return [{"name": "all", "flags": "quick", "family": True, "cap": 2, "depth": 4, "devs": 2}]
+    return [
+        {"name": "wide", "flags": "thorough", "family": True, "cap": 3, "depth": 4, "devs": 3},
+        {"name": "deep", "flags": "thorough", "family": False, "cap": 2, "depth": 6, "devs": 3},
+    ]
 
 DAY_NS = 86400 * 10**9
 VERSIONS = {"v1": "9.9.1", "v2": "9.9.2", "v1.dirty": "9.9.1.dirty"}
@@ -100,7 +113,7 @@ def _gone_pickle(modname, clsname):
 GONE_MODULE = _gone_pickle("vf_gone_mod", "Gone")
 GONE_ATTR = None  # built on first use (needs pymoca.ast imported from the subject tree)
 
-_CFG = {"tier": "quick"}
+_CFG = {"tier": "quick", "cap": 2}
 _OTHER = {}  # the valid-but-different tree that ENTRY other-version-differs stores (one pickle per process)
 _FRESH = {}
 
@@ -124,14 +137,14 @@ def flag_sets(tier):
     return fs
 
 
-def all_events(tier):
+def all_events(tier, family=True):
     evs = []
     for e, u in flag_sets(tier):
         for t in ("OK1", "OK2", "BAD"):
             evs.append(("P", t, e, u))
     # the near-duplicates differ from each other only in what the key is computed from, which the flags do not
     # touch: default flags only
-    for t in FAMILY:
+    for t in FAMILY if family else ():
         evs.append(("P", t, 30, False))
     evs += [("VER", v) for v in VERSIONS]
     evs += [("CLK", 2), ("CLK", 40)]
@@ -478,7 +491,7 @@ class World:
 
     def key(self):
         p = self.dbpath
-        cap = HANDED_CAP[_CFG["tier"]]
+        cap = _CFG["cap"]
         base = (self.version, self.initialised, tuple(sorted((t, min(n, cap)) for t, n in self.handed.items())))
         if not os.path.exists(p):
             return base + ("absent",)
@@ -517,9 +530,11 @@ class World:
         return (str(h)[:8], str(v), hashlib.sha1(bytes(data or b"")).hexdigest()[:8], bucket)
 
 
-def _init(tier):
+def _init(tier, plan=0):
+    pl = plans(tier)[plan]
     _CFG["tier"] = tier
-    _CFG["events"] = all_events(tier)
+    _CFG["events"] = all_events(pl["flags"], pl["family"])
+    _CFG["cap"] = pl["cap"]
 
 
 _W = None
@@ -621,6 +636,7 @@ class _Tally:
         self.pairs = set()
         self.pair_parses = 0
         self.after_edit = {1: 0, 2: 0, 3: 0}
+        self.level = 0
         import time
 
         self.t0 = time.time()
@@ -630,7 +646,7 @@ class _Tally:
             import sys
             import time
 
-            self.level = getattr(self, "level", 0) + 1
+            self.level += 1
             print("C01 level %d: expanding %d states (%d transitions so far, t=%.0fs, cpu=%.0fs)" % (self.level, len(items), getattr(self, "done", 0), time.time() - self.t0, sum(os.times()[:4])), file=sys.stderr, flush=True)
         res = self.pool.map(fn, items)
         self.done = getattr(self, "done", 0) + sum(len(r) for r in res)
@@ -645,33 +661,45 @@ class _Tally:
 
 
 def run(ctx):
-    _init(ctx.tier)
-    depth, devs = (4, 2) if ctx.tier == "quick" else (6, 3)
-    with common.Pool(init=_init, initargs=(ctx.tier,)) as pool:
-        w0 = build(())
-        tally = _Tally(pool)
-        st = bfs.search(ctx, tally, expand, init_key=w0.key(), max_depth=depth, max_dev=devs)
-        jobs = []
-        for t in ("OK1", "OK2"):
-            n = pickle_len(t)
-            step = 1 if ctx.tier == "thorough" else 16
-            offs = sorted(set(range(0, n, step)) | set(range(0, min(n, 48))) | {n - 1, n - 2})
-            for o in offs:
-                for r in (False, True):
-                    jobs.append((t, o, r))
-        res = pool.map(prefix_job, jobs)
-    classes = set()
+    searches = []
+    tally = _Tally(None)
+    for n, pl in enumerate(plans(ctx.tier)):
+        _init(ctx.tier, n)
+        with common.Pool(init=_init, initargs=(ctx.tier, n)) as pool:
+            w0 = build(())
+            tally.pool = pool
+            tally.level = 0
+            st = bfs.search(ctx, tally, expand, init_key=w0.key(), max_depth=pl["depth"], max_dev=pl["devs"])
+            st.update({"search": pl["name"], "events": len(_CFG["events"]), "history_length": pl["depth"], "deviations": pl["devs"],
+                       "near_duplicate_texts": len(FAMILY) if pl["family"] else 0, "results_per_text_distinguished": pl["cap"]})
+            searches.append(st)
+            if n == 0:
+                jobs = []
+                for t in ("OK1", "OK2"):
+                    k = pickle_len(t)
+                    step = 1 if ctx.tier == "thorough" else 16
+                    offs = sorted(set(range(0, k, step)) | set(range(0, min(k, 48))) | {k - 1, k - 2})
+                    for o in offs:
+                        for r in (False, True):
+                            jobs.append((t, o, r))
+                res = pool.map(prefix_job, jobs)
     for hist, v in res:
         for sig, msg in v:
             ctx.violation(sig, "after truncating the stored pickle: " + msg, {"history": hist})
-            classes.add(sig)
     ctx.sample({"history": res[len(res) // 2][0]})
-    ctx.coverage.update(st)
+    transitions = sum(st["transitions"] for st in searches)
+    states = sum(st["states"] for st in searches)
     ctx.coverage.update(
         {
-            "traces_validated_against_impl": st["transitions"] + len(jobs),
-            "evaluations": st["transitions"] + len(jobs),
-            "distinct_nontrivial": max(0, st["states"] - 1),
+            "states": states,
+            "transitions": transitions,
+            "max_depth": max(st["max_depth"] for st in searches),
+            "closed": all(st["closed"] for st in searches),
+            "frontier_left": sum(st["frontier_left"] for st in searches),
+            "searches": searches,
+            "traces_validated_against_impl": transitions + len(jobs),
+            "evaluations": transitions + len(jobs),
+            "distinct_nontrivial": max(0, states - len(searches)),
             "pickle_prefixes": len(jobs),
             "near_duplicate_texts": len(FAMILY),
             "near_duplicate_ordered_pairs_parsed": len(tally.pairs),
@@ -679,23 +707,33 @@ def run(ctx):
             "parses_after_a_near_duplicate": tally.pair_parses,
             "parses_after_1_2_3plus_edited_results_of_same_text": [tally.after_edit[1], tally.after_edit[2], tally.after_edit[3]],
             "exhaustive": True,
-            "bound": {"history_length": depth, "deviations": devs, "results_per_text_distinguished": HANDED_CAP[ctx.tier]},
-            "rule": "all histories of length <= %d with <= %d deviations (version change, clock jump, entry / layout / file "
-            "fault, parse of a near-duplicate text) over %d events: parse(text in OK1/OK2/BAD, expiration, always_update), "
-            "parse(default flags) of %d near-duplicate texts (OK3 with a multi-line, blank-, tab-, case- and accent-carrying "
-            "string literal, and its image under: LF->CRLF, strip trailing blanks, collapse blank runs, expand tabs, lower "
-            "case, other accent, NFD -- all different texts with different trees), module reload, versions v1/v2/v1.dirty, "
-            "clock +2d/+40d, stored pickle emptied/halved/garbage/class-gone, tables re-laid-out or dropped, metadata keys "
-            "deleted, file garbage/truncated/zero/deleted; state = abstraction of the database (layouts, metadata keys, "
-            "rows with key prefix, version, data hash and age bucket), process-initialised flag, version, and per text the "
-            "number of results handed out in this process (0..%d+); every parse is compared structurally with the uncached "
-            "parse of the same text, after which the caller edits the returned tree in place (every reachable container "
-            "and pymoca object) and keeps it.  Plus %d prefix lengths of the stored pickle (E3), each with and without a "
-            "module reload." % (depth, devs, len(_CFG["events"]), len(FAMILY), HANDED_CAP[ctx.tier], len(jobs)),
+            "bound": [{k: st[k] for k in ("search", "history_length", "deviations", "near_duplicate_texts", "results_per_text_distinguished")} for st in searches],
+            "rule": "%s.  A deviation is a version change, a clock jump, an entry / layout / file fault, or a parse of a "
+            "near-duplicate text.  Events: parse(text in OK1/OK2/BAD, expiration, always_update), parse(default flags) of the "
+            "%d near-duplicate texts (OK3 with a multi-line, blank-, tab-, case- and accent-carrying string literal, and its "
+            "image under: LF->CRLF, strip trailing blanks, collapse blank runs, expand tabs, lower case, other accent, NFD -- "
+            "all different texts with different trees), module reload, versions v1/v2/v1.dirty, clock +2d/+40d, stored pickle "
+            "emptied/halved/garbage/class-gone/other-version entry holding a different tree, tables re-laid-out or dropped, "
+            "metadata keys deleted, file garbage/truncated/zero/deleted; state = abstraction of the database (layouts, "
+            "metadata keys, rows with key prefix, version, data hash and age bucket), process-initialised flag, version, and "
+            "per text the number of results handed out in this process (0..cap); every parse is compared structurally with "
+            "the uncached parse of the same text, after which the caller edits the returned tree in place (every reachable "
+            "container and pymoca object) and keeps it.  Plus %d prefix lengths of the stored pickle (E3), each with and "
+            "without a module reload, followed by two parses."
+            % (
+                "; ".join(
+                    "search '%s': all histories of length <= %d with <= %d deviations over %d events (%s near-duplicates, "
+                    "results per text distinguished up to %d)" % (st["search"], st["history_length"], st["deviations"], st["events"],
+                                                                 "with" if st["near_duplicate_texts"] else "without", st["results_per_text_distinguished"])
+                    for st in searches
+                ),
+                len(FAMILY),
+                len(jobs),
+            ),
         }
     )
     ctx.assumptions += [
-        "one process, one folder (sharing is C02); pickles that load to a foreign *object* are outside the alphabet",
+        "one process, one folder (sharing is C02); pickles that load to a foreign *object* under the current version are outside the alphabet",
         "clock and pymoca.__version__ are seams set by the harness (as the repository's own cache tests do)",
         "process state of the cache lives in pymoca.parser: importlib.reload(parser) stands for a new process (a verdict "
         "reached after sibling events ran in the same worker is re-derived from the history alone before it is reported)",
@@ -705,7 +743,7 @@ def run(ctx):
 
 
 def replay(case):
-    _init("thorough")
+    _init("thorough", 0)
     w = build(())
     ok = True
     for ev in case["history"]:
